@@ -109,6 +109,14 @@ def _(): sub1('aes/gcm_sse.asm',"\t\tmovdqu\t%%T1, [%%GDATA + 16*13]\n\t\taesenc
 @m('C08-a2','C08','rolling hash run: the window loop stops one byte early','the scan routine is entered with i = w-1 and reads buffer[i - w] = buffer[-1], one byte in front of the caller\'s buffer')
 def _(): sub1('rolling_hash/rolling_hash2.c',"        for (i = 0; i < w; i++) {\n                if (i == buffer_length) {","        for (i = 0; i < w - 1; i++) {\n                if (i == buffer_length) {")
 
+@m('C01-a4','C01','md5 avx ctx layer: a carried block that becomes exactly full is not submitted','the full block stays in the carried buffer with partial_block_buffer_length = 64; the next bytes are hashed before it or over it')
+def _(): sub1('md5_mb/md5_ctx_avx.c',"if (ctx->partial_block_buffer_length >= ISAL_MD5_BLOCK_SIZE) {","if (ctx->partial_block_buffer_length > ISAL_MD5_BLOCK_SIZE) {")
+@m('C01-a5','C01','sm3 avx2 ctx layer: the tail saved for the next call is taken from the start of the buffer','the bytes carried into the next call are the first bytes of this call\'s buffer instead of the unhashed tail')
+def _(): sub1('sm3_mb/sm3_ctx_avx2.c',"                                memcpy_varlen(ctx->partial_block_buffer,\n                                              ((const char *) buffer + len), copy_len);","                                memcpy_varlen(ctx->partial_block_buffer,\n                                              ((const char *) buffer), copy_len);")
+
+@m('C05-a4','C05','mh_sha256 tail: a residue that leaves exactly room for the length field is padded with two blocks','streams whose length is 1015 mod 1024 get an extra all-zero block hashed before the length block')
+def _(): sub1('mh_sha256/mh_sha256_finalize_base.c',"if (partial_buffer_len > (ISAL_MH_SHA256_BLOCK_SIZE - 8)) {","if (partial_buffer_len >= (ISAL_MH_SHA256_BLOCK_SIZE - 8)) {")
+
 out='/verif/seeded'
 only=set(sys.argv[1:])
 import json
